@@ -639,12 +639,16 @@ impl Opts {
         self
     }
     pub fn to_options(&self) -> Options {
+        // the derive string goes through the public builder `Options::derive` (the way a caller sets
+        // it; round 12 of the seeded changes: a builder that trims its argument), the other fields
+        // have no builder and are set directly
         Options {
             text_identifier: self.text_identifier.clone(),
             attribute_prefix: self.attribute_prefix.clone(),
-            derive: self.derive.clone(),
+            derive: String::new(),
             sort: if self.sort_by_name { SortBy::XmlName } else { SortBy::Unsorted },
         }
+        .derive(&self.derive)
     }
     pub fn json(&self) -> J {
         json::obj(vec![("text_identifier", json::s(&self.text_identifier)), ("attribute_prefix", json::s(&self.attribute_prefix)), ("derive", json::s(&self.derive)), ("sort", json::s(if self.sort_by_name { "XmlName" } else { "Unsorted" }))])
